@@ -253,7 +253,7 @@ func RunScenario(t *testing.T, rec *Recorder, sc *Scenario) {
 	rec.Pause()
 	ver := rapidVersionOf()
 	rec.Resume()
-	begin := F{"id": sc.ID, "name": name, "sname": SafeName(name), "entry": entry, "nruns": len(runs), "version": ver}
+	begin := F{"id": sc.ID, "name": name, "sname": SafeName(name), "entry": entry, "nruns": len(runs), "version": ver, "deadline": false}
 	for k, v := range sc.Tag {
 		begin[k] = normJSON(v)
 	}
@@ -336,6 +336,13 @@ func RunScenario(t *testing.T, rec *Recorder, sc *Scenario) {
 			}
 			rec.Resume()
 		}
+		r.mu.Lock()
+		for k := range r.counter {
+			if strings.HasPrefix(k, "nth/") {
+				delete(r.counter, k)
+			}
+		}
+		r.mu.Unlock()
 		ren := entry
 		if run.Entry != "" {
 			ren = run.Entry
